@@ -157,7 +157,12 @@ def run_case(case):
 			sel = idx if idx is not None else list(range(nr))
 			n = len(sel)
 			flat = case.get('flat', False)
-			res = jaccarddist_pairwise(S, indices=idx, flat=flat)
+			pout = None
+			if case.get('out') == 'given':
+				pout = np.full(num_pairs(n) if flat else (n, n), np.nan, dtype=np.float32)
+			res = jaccarddist_pairwise(S, indices=idx, flat=flat, out=pout)
+			if pout is not None and res is not pout:
+				problems.append('did not write to the given buffer')
 			if flat:
 				exp = [D(refs[sel[i]], refs[sel[j]]) for i in range(n) for j in range(i + 1, n)]
 				got = [_bits(x) for x in res]
@@ -215,7 +220,7 @@ def cases(tier, seed):
 		pidx = None
 		if rnd.random() < .4 and nr:
 			pidx = [rnd.randrange(nr) for _ in range(rnd.choice([0, 1, 2, nr, nr + 2]))]
-		yield {'kind': 'pairwise', 'nq': 0, 'nr': nr, 'refs': rnd.choice(conts), 'indices': pidx, 'flat': rnd.random() < .5,
+		yield {'kind': 'pairwise', 'nq': 0, 'nr': nr, 'refs': rnd.choice(conts), 'indices': pidx, 'flat': rnd.random() < .5, 'out': rnd.choice([None, 'given']),
 		       'threads': rnd.choice([None, 1, 5, 16]), 'seed': rnd.randrange(10 ** 6)}
 
 
